@@ -47,8 +47,8 @@ func runOnce(cfg obs.Cfg, base int) (obs.Snap, string, string) {
 	go func() { o.Wait(); close(done) }()
 	select {
 	case <-done:
-	case <-time.After(10 * time.Second):
-		return o.Snapshot(), "deadlock", "environment did not finish within 10 s on the real runtime"
+	case <-time.After(30 * time.Second):
+		return o.Snapshot(), "deadlock", "environment did not finish within 30 s on the real runtime"
 	}
 	s := o.Snapshot()
 	if c, d := obs.Check(cfg, s, true); c != "" {
@@ -59,9 +59,9 @@ func runOnce(cfg obs.Cfg, base int) (obs.Snap, string, string) {
 		if runtime.NumGoroutine() <= base {
 			break
 		}
-		if i > 1000 {
+		if i > 3000 {
 			return s, "goroutines left blocked after the combinator finished",
-				fmt.Sprintf("%d goroutines alive 1 s after completion (baseline %d)", runtime.NumGoroutine(), base)
+				fmt.Sprintf("%d goroutines alive 3 s after completion (baseline %d)", runtime.NumGoroutine(), base)
 		}
 		if i < 50 {
 			runtime.Gosched()
